@@ -1,5 +1,6 @@
 import CLModel.Model.NonRevoc
 import CLModel.Proofs.Registry
+import CLModel.Proofs.Guards
 import CLModel.Props.C09
 import Mathlib.Tactic.LinearCombination
 import Mathlib.Tactic.Ring
@@ -223,5 +224,19 @@ example (K : Type) [Field K] (k : RevKey K) (x sk γ m2 vr' vr2 c : K) (i : ℕ)
     ring
   · simp only [issueCred, ringOps_mul, ringOps_pow]
     ring
+
+/-! ## decision structure regenerated from `verifier.rs` -/
+
+/-- **the omission guard is where the model has it**: in the per-sub-proof loop of `verify` the
+non-revocation branch is taken iff proof part, revocation public key, registry and registry key
+are all present, and is followed by `else if credential.rev_reg.is_some() { return Err }`
+(moving the rejection out of the loop, or `all` for `any`, breaks it) -/
+theorem omission_guard_from_source :
+    Gen.omissionGuardInLoop = true ∧ Gen.nrBranchOnFourSomes = true := ⟨rfl, rfl⟩
+
+/-- **the legacy field is read only when legacy proofs are accepted** (`nonrevoc_linked`'s
+premise about the code): `m2` is the primary proof's response and `c = −c_H` unless
+`accept_legacy` AND `x_list.m2` is present -/
+theorem legacy_m2_from_source : Gen.legacyM2OnlyWhenAccepted = true := rfl
 
 end CL.C10
